@@ -4,7 +4,7 @@ use crate::engine::gen::idx;
 use crate::engine::*;
 use crate::models::summary::{self as m, Assignment};
 use crate::props::{sumapi, sumgen};
-use pkgsrc::summary::{Summary, SummaryStream};
+use pkgsrc::summary::SummaryStream;
 use proptest::prelude::*;
 use serde::{Deserialize, Serialize};
 use std::collections::HashSet;
